@@ -110,12 +110,108 @@ def scan(pan, path, ts, top, hits, counts, cls, kind, L0=0.0):
         counts["max-final-delta"] = max(counts.get("max-final-delta", 0.0), dl)
         counts["max-L"] = max(counts.get("max-L", 0.0), Lest)
         if dl > JUMP_ABS + L_SAFETY * Lest * ang:
-            ra, rb = first_region(pan, path.at(t_lo)), first_region(pan, path.at(t_hi))
+            pa, pb = path.at(t_lo), path.at(t_hi)
+            ga, gb = gains(pan, pa), gains(pan, pb)
+            ra, rb = first_region(pan, pa), first_region(pan, pb)
             mech = "jump-inside-one-%s" % ra[1] if ra == rb and ra[0] is not None else "jump-between-regions"
+            tags = [mech]
+            two = two_roots_explanation(pan, [ra, rb], pa, pb, ga, gb, JUMP_ABS + L_SAFETY * Lest * ang)
+            if two is not None:
+                tags.append("quad-two-in-range-roots")
+            mis = quad_misalignment(pan, [(ra, pa), (rb, pb)])
+            if mis is not None:
+                tags.append("quad-inconsistent-root-pair")
             _hit(hits, pan, path, t_lo, t_hi, cls, kind, "gain jump between neighbouring directions",
                  {"angle_rad": ang, "max_gain_change": dl, "lipschitz_estimate": Lest, "accepting_region_a": ra, "accepting_region_b": rb,
-                  "gains_a": gains(pan, path.at(t_lo)).tolist(), "gains_b": gains(pan, path.at(t_hi)).tolist()}, [mech])
+                  "gains_a": ga.tolist(), "gains_b": gb.tolist(), "two_in_range_roots": two, "quad_velocity_misaligned": mis}, tags)
     return calls
+
+
+ROOT_WINDOW = 1e-6
+
+
+def quad_axis_roots(sp, p):
+    """ALL real roots within [-1e-6, 1+1e-6] of the pan_axis quadratic for ordered corners sp = (a, b, c, d) at
+    direction p (the harness's own solve; the code under test only ever uses the first root np.roots returns)."""
+    a, b, c, d = [np.asarray(v, dtype=float) for v in sp]
+    A = float(np.dot(np.cross(b - a, c - d), p))
+    B = float(np.dot(np.cross(a, c - d) + np.cross(b - a, d), p))
+    C = float(np.dot(np.cross(a, d), p))
+    scale = abs(A) + abs(B) + abs(C)
+    if scale == 0.0:
+        return []
+    if abs(A) <= 1e-13 * scale:
+        roots = [-C / B] if abs(B) > 1e-13 * scale else []
+    else:
+        disc = B * B - 4 * A * C
+        if disc < -1e-12 * scale * scale:
+            roots = []
+        else:
+            sq = math.sqrt(max(disc, 0.0))
+            qq = -0.5 * (B + math.copysign(sq, B)) if B != 0 else 0.5 * sq
+            roots = [qq / A] + ([C / qq] if qq != 0 else [-qq / A])
+    return sorted(r for r in roots if -ROOT_WINDOW <= r <= 1 + ROOT_WINDOW)
+
+
+def two_roots_explanation(pan, accepting, pa, pb, ga, gb, tol):
+    """Independent classifier for the recorded BS.2127 quad behaviour: does the jump between pa and pb disappear under
+    a different choice of in-range roots of a QuadRegion that accepts pa or pb?  Returns a description or None.
+    (i) for one of the two directions some axis of the quad has two roots in [-1e-6, 1+1e-6];
+    (ii) some combination of that direction's roots gives bilinear gains (normalised, downmixed and renormalised as the
+         code does) equal to the OTHER direction's actual gains within tol."""
+    if pan.stereo:
+        return None
+    D = np.asarray(pan.dm.downmix, dtype=float)
+    seen = set()
+    for (k, kind, _) in accepting:
+        if kind != "QuadRegion" or k in seen:
+            continue
+        seen.add(k)
+        Q = pan.regions[k]
+        pos = np.asarray(Q.positions, dtype=float)
+        order = [int(o) for o in Q.order]
+        sp = pos[order]
+        for p_this, g_other, which in ((pa, gb, "a"), (pb, ga, "b")):
+            rx = quad_axis_roots(sp, p_this)
+            ry = quad_axis_roots(sp[[1, 2, 3, 0]], p_this)
+            if len(rx) < 2 and len(ry) < 2:
+                continue
+            for x in rx:
+                for y in ry:
+                    xc, yc = min(max(x, 0.0), 1.0), min(max(y, 0.0), 1.0)
+                    pvs = np.zeros(4)
+                    pvs[order] = [(1 - xc) * (1 - yc), xc * (1 - yc), xc * yc, (1 - xc) * yc]
+                    inner = np.zeros(D.shape[1])
+                    inner[np.asarray(Q.output_channels, dtype=int)] = pvs
+                    out = D.dot(inner)
+                    nrm = np.linalg.norm(out)
+                    if nrm == 0:
+                        continue
+                    out = out / nrm
+                    if np.max(np.abs(out - g_other)) <= tol:
+                        return {"quad_region": k, "direction": which, "roots_x": rx, "roots_y": ry, "matching_choice": [x, y]}
+    return None
+
+
+def quad_misalignment(pan, accepted):
+    """Diagnosis of a second quad mechanism (NOT a recorded finding): the accepting QuadRegion returns gains whose velocity
+    vector gains.positions is not parallel to the direction (the x and y roots belong to different intersections of the ray
+    with the bilinear surface; the acceptance test only looks at the sign of the projection)."""
+    for (k, kind, _), p in accepted:
+        if kind != "QuadRegion":
+            continue
+        Q = pan.regions[k]
+        try:
+            pv = Q.handle(np.array(p, dtype=float))
+        except Exception:
+            pv = None
+        if pv is None:
+            continue
+        v = np.asarray(pv).dot(np.asarray(Q.positions, dtype=float))
+        m = float(np.linalg.norm(np.cross(c05.unit(v), c05.unit(p))))
+        if m > 1e-6:
+            return {"quad_region": k, "sin_angle_between_velocity_and_direction": m}
+    return None
 
 
 def first_region(pan, p):
@@ -158,7 +254,7 @@ def path_stream(pan, rng, n_local, n_circles):
                 yield ("loudspeaker-meridian" if (i == 0 and len(dirs) == 3) else "loudspeaker", "-", Path(q, d), local_ts(1e-2 if i % 2 == 0 else 1e-4), 2)
         return
     # full great circles: horizontal plane, meridians, circles through loudspeakers, random
-    N = 256
+    N = 1024 if n_circles > 40 else 256  # n_circles > 40: dense scan (layouts with recorded findings)
     full = [2 * math.pi * i / N - math.pi for i in range(N + 1)]
     circles = [("circle-horizontal", c05.cart(0, 0), c05.cart(90, 0))]
     for az in (0.0, 30.0, 90.0, 110.0, 135.0, 45.0, rng.uniform(-180, 180)):
@@ -173,7 +269,7 @@ def path_stream(pan, rng, n_local, n_circles):
     rng.shuffle(rest)
     circles = circles[:1] + rest  # the horizontal plane is always scanned
     for cls, q, d in circles[:n_circles]:
-        yield (cls, "-", Path(q, d), full, 3)
+        yield (cls, "-", Path(q, d), full, 6 if N > 256 else 3)
     # local crossings
     feats = []
     for (k, kind, a, b) in c05.edge_list(pan):
@@ -247,6 +343,7 @@ THEOREMS = (
     "quad_edge_agreement'",
     "ngon_candidate_on_edge",
     "ngon_on_edge",
+    "quad_two_valued_witness",
     "C12_partial",
 )
 
@@ -299,8 +396,14 @@ class C12(Spec):
         # corner layouts (fixed seed): structural check on all, path search on a seeded sample (all when thorough)
         csym, casym = c05.corner_catalogue()
         full = None if not ctx.quick else {c[0] for c in ctx.rng.sample(csym, min(6, len(csym))) + ctx.rng.sample(casym, min(10, len(casym)))}
+        always = c05.failing_catalogue_ids("C12") | {"9+10+3#cornerS11"}
         for fam, tag in ((csym, None), (casym, "asymmetric-catalogue:")):
             for lid, name, real in fam:
+                if ctx.quick and lid in always:
+                    # layouts with recorded findings are searched in every run (all fixed meridians + the meridians through
+                    # every loudspeaker), so that their KNOWN-FINDING lines keep being reproduced and anything new on them shows
+                    tasks.append((lid, name, real, "%s/%d/%s" % (ctx.tier, ctx.seed, lid), max(40, n_local // 3), 41 if tag is None else 12, (tag + lid) if tag else None))
+                    continue
                 on = full is None or lid in full
                 # not sampled: symmetric layouts still get the paths through every loudspeaker, asymmetric ones the structural check
                 div = 3 if ctx.quick else 8
